@@ -139,6 +139,30 @@ def run(ctx):
         it.reset([])
         got = it.call_function(lv, [a, b], {}, None, lv.node)
         r4.check(got == want, f"levenshtein_distance[{a!r},{b!r}]", f"== {want}", lv.loc(), why_fail=f"got {got}")
+    # bounded-exhaustive: every pair of strings over {a, b} up to length 4 (961 pairs, all overlap patterns of repeated
+    # letters) against the textbook recurrence
+    def _lev(x, y):
+        prev = list(range(len(y) + 1))
+        for i, cx in enumerate(x, 1):
+            cur = [i]
+            for j, cy in enumerate(y, 1):
+                cur.append(min(prev[j] + 1, cur[j - 1] + 1, prev[j - 1] + (cx != cy)))
+            prev = cur
+        return prev[-1]
+    import itertools as _it2
+    words = [""] + ["".join(t) for n_ in (1, 2, 3, 4) for t in _it2.product("ab", repeat=n_)]
+    wrong = []
+    it.max_steps = max(getattr(it, "max_steps", 0), 50_000_000)
+    for a, b in _it2.product(words, words):
+        it.reset([])
+        try:
+            got = it.call_function(lv, [a, b], {}, None, lv.node)
+        except Raised as e:
+            got = f"raises {e.exc_name}"
+        if got != _lev(a, b):
+            wrong.append((a, b, got, _lev(a, b)))
+    r4.check(not wrong, "levenshtein_distance[all pairs over {a,b}, length <= 4]", f"{len(words) ** 2} pairs equal the textbook edit distance", lv.loc(),
+             why_fail="; ".join(f"d({a!r},{b!r})={g} (expected {w})" for a, b, g, w in wrong[:3]))
     # which sheets are spell-checked, and how
     calls = [c for c in walk_own(w2j.node) if isinstance(c, ast.Call) and call_name(c) == "find_sheet_misspellings"]
     keys = {}
@@ -166,6 +190,18 @@ def run(ctx):
     r4.check(got == ["French", "Elvish (qya)", "Bad(en) x"], "get_languages_with_bad_tags", "languages without a trailing '(code)' or with an unknown code are reported; 'default' and labels under 3 characters are skipped", gl.loc(), why_fail=repr(got))
     pf = ctx.func("pyxform.survey:Survey.print_xform_to_file", "C20.R4")
     ic = [c for c in walk_own(pf.node) if isinstance(c, ast.Call) and call_name(c) == "get_languages_with_bad_tags"]
+    # the call as written, evaluated for a form whose *default language* is itself a language name without a code:
+    # only the literal placeholder language `default` is exempt from the check
+    if len(ic) == 1:
+        tr_ = {"French": {}, "English (en)": {}, "default": {}}
+        sv_ = Obj(repo.cls("pyxform.survey:Survey"), {"default_language": "French", "_translations": tr_}, name="survey")
+        it.reset([])
+        try:
+            got2 = it.eval(ic[0], {"self": sv_, "translations": tr_}, pf.module)
+        except Raised as e:
+            got2 = f"raises {e.exc_name}"
+        r4.check(got2 == ["French"], "print_xform_to_file:IANA check[default_language='French']", "a default language without a valid code is reported like any other; only `default` is skipped",
+                 pf.loc(ic[0]), why_fail=repr(got2))
     r4.check(len(ic) == 1 and guard_texts(ic[0], stop=pf.node) == ["translations"] and norm(ic[0].args[0]) == "translations", "print_xform_to_file:IANA check",
              "the language check runs on the survey's translations on every successful path, independent of validate/enketo", pf.loc(), why_fail=repr([guard_texts(c, stop=pf.node) for c in ic]))
     wa = [c for c in walk_own(pf.node) if isinstance(c, ast.Call) and isinstance(c.func, ast.Attribute) and c.func.attr == "append" and norm(c.func.value) == "warnings"]
@@ -229,6 +265,30 @@ def run(ctx):
         o = Obj(stcls, {"or_other_seen": seen_flag, "survey": mk(sdef), "choices": mk(cdef)}, name="st")
         it.call_function(ooc, [o], {"warnings": w}, None, ooc.node)
         r5.check(len(w) == want, f"or_other_check[seen={seen_flag} survey_default_only={sdef} choices_default_only={cdef}]", f"{want} warning(s)", ooc.loc(), why_fail=repr(w))
+    # the same check with real language maps: for every pair of {default, fr, en}-subsets seen on the two sheets, the
+    # warning is due iff an or_other select exists and some sheet has a language other than `default`
+    tcls = repo.cls("pyxform.validators.pyxform.translations_checks:Translations")
+    import itertools as _it3
+    LANGS = ("default", "French (fr)", "English (en)")
+    subsets = [tuple(l for l, b in zip(LANGS, bits) if b) for bits in _it3.product((0, 1), repeat=3)]
+    bad_oo = []
+    for seen_flag, ssv, sch in _it3.product((True, False), subsets, subsets):
+        it = ctx.interp("C20.R5")
+        it.reset([])
+        w = []
+        mk = lambda ls: Obj(tcls, {"seen": {l: ["label"] for l in ls}, "columns_seen": {"label"} if ls else set(), "missing": {}}, name="t")
+        o = Obj(stcls, {"or_other_seen": seen_flag, "survey": mk(ssv), "choices": mk(sch)}, name="st")
+        try:
+            it.call_function(ooc, [o], {"warnings": w}, None, ooc.node)
+        except Raised as e:
+            bad_oo.append((seen_flag, ssv, sch, f"raises {e.exc_name}"))
+            continue
+        translated = any(l != "default" for l in (*ssv, *sch))
+        want = 1 if (seen_flag and translated) else 0
+        if len(w) != want:
+            bad_oo.append((seen_flag, ssv, sch, f"{len(w)} warnings, expected {want}"))
+    r5.check(not bad_oo, "or_other_check[all language subsets on both sheets]", "128 combinations: warns iff or_other is used and a non-default language exists on either sheet",
+             ooc.loc(), why_fail="; ".join(f"or_other={a} survey={b} choices={c}: {d}" for a, b, c, d in bad_oo[:3]))
     rules.append(r5)
     return rules
 
